@@ -21,6 +21,9 @@ pub struct FriParams {
     pub c: u32,
     pub n_friendly: u64,
     pub hash: HashKind,
+    /// declared tree heights exceed the real ones by this much (rows beyond the real table are
+    /// all-zero); 0 for an honest prover
+    pub extra_height: u32,
 }
 
 impl FriParams {
@@ -101,8 +104,14 @@ impl FriProof {
             let h = bits - s;
             debug_assert_eq!(h, params.layer_height(li));
             let rows: Vec<Vec<Felt>> = layer.chunks(cs).map(|c| c.to_vec()).collect();
-            let tp = TreeParams { height: h, n_friendly: params.n_friendly, hash: params.hash };
-            let table = Table::full(tp, cs, &rows);
+            let tp = TreeParams { height: h + params.extra_height, n_friendly: params.n_friendly, hash: params.hash };
+            let table = if params.extra_height == 0 {
+                Table::full(tp, cs, &rows)
+            } else {
+                let m: std::collections::BTreeMap<u128, Vec<Felt>> =
+                    rows.iter().enumerate().map(|(i, r)| (i as u128, r.clone())).collect();
+                Table::sparse(tp, cs, vec![Felt::ZERO; cs], m)
+            };
             let root = table.root();
             sponge.absorb(&[root]);
             let e = sponge.squeeze();
